@@ -90,6 +90,9 @@ class Task:
         if inp.get("dtype"):
             d = inp["dtype"]
             out["dtype"] = {k: v for k, v in (("ref", d.get("est")), ("est", d.get("ref"))) if v}
+        if inp.get("vdtype"):
+            d = inp["vdtype"]
+            out["vdtype"] = {k: v for k, v in (("ref", d.get("est")), ("est", d.get("ref"))) if v}
         return out
 
     def shift(self, inp, c):
@@ -940,19 +943,28 @@ class TranscriptionVelocity(Transcription):
         ref, est = self._typed_notes(rng, self_input)
         ref = [n + [Fr(rng.randint(20, 120))] for n in ref]
         est = [list(n) for n in ref] if self_input else [n + [Fr(rng.randint(20, 120))] for n in est]
-        return with_dtypes(rng, {"ref": [[S(v) for v in x] for x in ref], "est": [[S(v) for v in x] for x in est]},
-                           self_input)
+        inp = with_dtypes(rng, {"ref": [[S(v) for v in x] for x in ref], "est": [[S(v) for v in x] for x in est]},
+                          self_input)
+        # MIDI velocities (whole numbers 0..127) in the container a MIDI reader hands over
+        vd = {s: rng.choice(["uint8", "int8", "int16", "uint16", "int32", "int64", None]) for s in ("ref", "est")}
+        if self_input and rng.random() < 0.5:
+            vd["est"] = vd["ref"]
+        inp["vdtype"] = {k: v for k, v in vd.items() if v}
+        return inp
 
     @staticmethod
-    def _split4(notes, dtype=None):
+    def _split4(notes, dtype=None, vdtype=None):
         iv = typed(np.array([[float(F(n[0])), float(F(n[1]))] for n in notes]).reshape(-1, 2), dtype)
         p = np.array([midi_hz(F(n[2])) for n in notes])
         v = np.array([float(F(n[3])) for n in notes])
+        if vdtype and np.array_equal(v.astype(vdtype).astype(float), v):
+            v = v.astype(vdtype)        # same values, other dtype
         return iv, p, v
 
     def evaluate(self, inp, **kw):
-        ri, rp, rv = self._split4(inp["ref"], dt_of(inp, "ref"))
-        ei, ep, ev = self._split4(inp["est"], dt_of(inp, "est"))
+        vd = inp.get("vdtype") or {}
+        ri, rp, rv = self._split4(inp["ref"], dt_of(inp, "ref"), vd.get("ref"))
+        ei, ep, ev = self._split4(inp["est"], dt_of(inp, "est"), vd.get("est"))
         out = mir_eval.transcription_velocity.evaluate(ri, rp, rv, ei, ep, ev, **kw)
         kw2 = {k: v for k, v in kw.items() if k != "velocity_tolerance"}
         plain = mir_eval.transcription.evaluate(ri, rp, ei, ep, **kw2)
